@@ -4,4 +4,4 @@
 From Coq Require Import Extraction ExtrOcamlBasic NArith.
 Require Import Celma.Common.Res Celma.FixedStr.FsBase Celma.FixedStr.FsModel Celma.FixedStr.FsStd.
 Extraction Language OCaml.
-Extraction "../ocaml/gen/c10_model.ml" step pre_A fs_init std_step cut abs cstrlen nlen N.add N.mul N.eqb NPOS.
+Extraction "../ocaml/gen/c10_model.ml" step pre_A cap_ok fs_init std_step cut abs cstrlen nlen N.add N.mul N.eqb NPOS.
